@@ -1,6 +1,7 @@
 (** C17 — property theorems only.  Each is closed by [exact] of a lemma in Proofs.v and followed by
     [Print Assumptions]. *)
-From V Require Import Base.Util C17.Sites C17.Model C17.Spec C17.Proofs.
+From V Require Import Base.Util Gql.Ast Writer.Wop Ts.TsType Ts.TsDen C17.Sites C17.Model C17.Spec C17.Proofs C17.Full C17.Branches.
+From V Require C10.Model C10.Spec C01.Model C17.Denot.
 From V Require Gen.C17_sites_gen.
 From Coq Require Import Permutation Sorting.Sorted.
 
@@ -112,3 +113,91 @@ Theorem C17_skeleton_def_permutation : forall (pi : oracle) (o : hmap scfg) (doc
   exists l', print_skeleton pi o doc' = Ok l' /\ decls_equiv l l'.
 Proof. exact print_skeleton_permutation. Qed.
 Print Assumptions C17_skeleton_def_permutation.
+
+(* ------------------------------------------------------------------------------------------- *)
+(** * second pass: composition with the printer models of C10 and C01 (imported read-only) *)
+
+(** order_oracle_irrelevant for the FULL schema / resolver declaration output: C10's [print_schema] with the
+    option table (from_config) and the context's scalar table and identifier bag in oracle order, paired with
+    C10's [print_resolvers]; the writer-operation lists (text and source-map entries) do not depend on the
+    oracles *)
+Theorem C17_full_output_oracle_irrelevant :
+  forall (p1 p2 p1' p2' : oracle) cfg meta optional runtime ro plugins doc,
+  is_oracle p1 -> is_oracle p2 -> is_oracle p1' -> is_oracle p2' -> NoDup (keys cfg) ->
+  full_gen p1 p2 cfg meta optional runtime ro plugins doc = full_gen p1' p2' cfg meta optional runtime ro plugins doc.
+Proof. exact full_gen_oracle_irrelevant. Qed.
+Print Assumptions C17_full_output_oracle_irrelevant.
+
+(** … and for every oracle it is C10's own model of SchemaTypePrinter::print_document *)
+Theorem C17_full_schema_is_C10_print_schema : forall (p1 p2 : oracle) cfg meta optional runtime doc,
+  is_oracle p1 -> is_oracle p2 -> NoDup (keys cfg) ->
+  full_schema p1 p2 cfg meta optional runtime doc
+  = C10.Model.print_schema
+      (C10.Model.mkSOpts (x_scalars (hm_extend builtin_scalar_types cfg)) meta optional runtime) doc.
+Proof. exact full_schema_is_print_schema. Qed.
+Print Assumptions C17_full_schema_is_C10_print_schema.
+
+(** the resolver printer reads its [ts_types] map by key only: any map with the same lookups (any layout of
+    the HashMap) yields the same declarations *)
+Theorem C17_resolver_map_lookup_only : forall o plugins doc (m : C10.Model.tymap),
+  (forall k, assoc k m = assoc k (fold_left (fun acc t => (C10.Model.tname t, C10.Model.resolver_output_type o doc t) :: acc)
+                                            (C10.Model.typedefs doc) [])) ->
+  C10.Model.bind (resolver_map_from o plugins doc m) (resolver_tail o plugins doc)
+  = C10.Model.resolver_structure o plugins doc.
+Proof. exact resolver_structure_lookup_only. Qed.
+Print Assumptions C17_resolver_map_lookup_only.
+
+(** def_permutation for the DENOTATION of every exported alias (via C10_alias_exact_iff): a permuted
+    well-formed document exports the alias too and it admits / rejects exactly the same values *)
+Theorem C17_alias_denotation_permutation : forall o doc doc' nss t T body,
+  Permutation doc doc' -> C10.Spec.wf_schema o doc = true ->
+  C10.Model.schema_decls o doc = C10.Model.Ok nss -> C10.Spec.applicable doc t T = true ->
+  C10.Spec.alias_of (C10.Spec.namespace_of nss t) T = Some body ->
+  exists nss' body',
+    C10.Model.schema_decls o doc' = C10.Model.Ok nss'
+    /\ C10.Spec.alias_of (C10.Spec.namespace_of nss' t) T = Some body'
+    /\ forall v,
+         (In_type (C10.Spec.ns_env (C10.Spec.namespace_of nss t)) body v
+          <-> In_type (C10.Spec.ns_env (C10.Spec.namespace_of nss' t)) body' v)
+         /\ (NotIn_type (C10.Spec.ns_env (C10.Spec.namespace_of nss t)) body v
+             <-> NotIn_type (C10.Spec.ns_env (C10.Spec.namespace_of nss' t)) body' v).
+Proof. exact C17.Denot.alias_denotation_permutation_total. Qed.
+Print Assumptions C17_alias_denotation_permutation.
+
+(** the reference denotation and the well-formedness guard themselves are order-free *)
+Theorem C17_Ref_permutation : forall doc doc', Permutation doc doc' ->
+  nodup_keys (map C10.Model.tname (C10.Model.typedefs doc)) = true ->
+  forall o t T v, C10.Spec.Ref o doc t T v = C10.Spec.Ref o doc' t T v.
+Proof. exact C17.Denot.Ref_perm. Qed.
+Print Assumptions C17_Ref_permutation.
+
+(** the branches of an operation result type (= the members of the emitted union, in order): parent objects
+    in schema order x assignments of the distinct @skip/@include variables in first-occurrence order *)
+Theorem C17_branch_order_spec : forall fuel S F sels parent objs vars,
+  C01.Model.parent_objects S parent = C01.Model.Ok objs ->
+  C01.Model.get_boolean_variables fuel F sels = C01.Model.Ok vars ->
+  C01.Model.generate_branching_conditions fuel S F sels parent
+  = C01.Model.Ok (flat_map (fun o => map (fun a => C01.Model.mkBr o a)
+                      (match vars with [] => [[]] | _ => C01.Model.assignments (C01.Model.unique vars) end)) objs)
+  /\ NoDup (C01.Model.unique vars) /\ (forall x, In x (C01.Model.unique vars) <-> In x vars).
+Proof. exact branching_order_spec. Qed.
+Print Assumptions C17_branch_order_spec.
+
+Theorem C17_unique_first_occurrence : forall l x,
+  C01.Model.unique (l ++ [x]) = if C01.Model.mem x l then C01.Model.unique l else C01.Model.unique l ++ [x].
+Proof. exact unique_snoc. Qed.
+Print Assumptions C17_unique_first_occurrence.
+
+(** collecting the variables into a HashSet instead: identity order = the real function, but the result
+    depends on the iteration order *)
+Theorem C17_branching_hashset_id : forall fuel S F sels parent,
+  branching_hashset o_id fuel S F sels parent = C01.Model.generate_branching_conditions fuel S F sels parent.
+Proof. exact branching_hashset_id. Qed.
+Print Assumptions C17_branching_hashset_id.
+
+Theorem C17_branching_hashset_refuted :
+  exists (pi pi' : oracle), is_oracle pi /\ is_oracle pi' /\
+    branching_hashset pi 5 ex_schema [] ex_sels (s "Query") <> branching_hashset pi' 5 ex_schema [] ex_sels (s "Query")
+    /\ exists l, branching_hashset pi 5 ex_schema [] ex_sels (s "Query") = C01.Model.Ok l /\ List.length l = 4%nat.
+Proof. exact branching_hashset_refuted. Qed.
+Print Assumptions C17_branching_hashset_refuted.
